@@ -315,34 +315,10 @@ class _Run:
                     self.do_click(i, op, size, frame)
                     if res.violations:
                         break
-                elif k == "set_focus":
-                    if self.wlen():
-                        pos = op.get("pos", 0) % self.wlen()
-                        lb.set_focus(pos, op.get("from"))
-                        requests += 1
-                        self.log.add("set_focus", [pos, repr(op.get("from"))])
-                        self.moved_between_renders = True
-                    else:
-                        self.log.add("set_focus", "skipped (empty)")
-                elif k == "focus_pos":
-                    if self.wlen():
-                        pos = op.get("pos", 0) % self.wlen()
-                        lb.focus_position = pos
-                        requests += 1
-                        self.log.add("focus_pos", pos)
-                        self.moved_between_renders = True
-                    else:
-                        self.log.add("focus_pos", "skipped (empty)")
-                elif k == "valign":
-                    v = op.get("v", "top")
-                    lb.set_focus_valign(tuple(v) if isinstance(v, list) else v)
-                    requests += 1
-                    self.log.add("valign", repr(v))
-                    self.moved_between_renders = True
-                elif k == "walker":
-                    if requests:
+                elif k in ("set_focus", "focus_pos", "valign", "walker"):
+                    if k == "walker" and requests:
                         res.fault("walker_edit_with_pending_request")
-                    self.walker_op(op)
+                    requests += self.app_op(op)
                     self.moved_between_renders = True
                 elif k == "resize":
                     size = tuple(op["size"])
@@ -419,6 +395,120 @@ class _Run:
                 self.res.probe("page_down_unselectable_multirow_head")
         except Exception:  # noqa: BLE001
             return
+
+    # ---- the application actor (direct call in a history, timer callback in a full-stack run) -------
+    def app_op(self, op: dict) -> int:
+        """Apply one application-side operation; returns the number of focus / alignment requests it made."""
+        lb = self.lb
+        k = op["op"]
+        if k == "set_focus":
+            if self.wlen():
+                pos = op.get("pos", 0) % self.wlen()
+                lb.set_focus(pos, op.get("from"))
+                self.log.add("set_focus", [pos, repr(op.get("from"))])
+                return 1
+            self.log.add("set_focus", "skipped (empty)")
+            return 0
+        if k == "focus_pos":
+            if self.wlen():
+                pos = op.get("pos", 0) % self.wlen()
+                lb.focus_position = pos
+                self.log.add("focus_pos", pos)
+                return 1
+            self.log.add("focus_pos", "skipped (empty)")
+            return 0
+        if k == "valign":
+            v = op.get("v", "top")
+            lb.set_focus_valign(tuple(v) if isinstance(v, list) else v)
+            self.log.add("valign", repr(v))
+            return 1
+        if k == "walker":
+            self.walker_op(op)
+            return 0
+        raise core.HarnessError(f"unknown application op {k}")
+
+    # ---- full-stack run: bytes -> Screen -> MainLoop -> ListBox -> draw_screen -> RefTerm ------------
+    def run_stack(self) -> str:  # noqa: C901
+        import urwid  # noqa: PLC0415
+
+        from simkit import appstack  # noqa: PLC0415
+
+        scen, res = self.scen, self.res
+        cfg = scen["config"]
+        st = cfg["stack"]
+        self.pre_focus_w = None
+        size = list(cfg["size"])
+        events = []
+        t = 0.125
+        for op in scen["ops"]:
+            k = op["op"]
+            t += float(op.get("dt", 0.25 if k in ("render", "click") else 0))
+            if k == "key":
+                hx = appstack.key_hex(op["key"])
+                if hx:
+                    events.append({"ev": "bytes", "t": t, "hex": hx})
+            elif k in ("mouse", "click"):
+                x, y = op.get("x", 0) % size[0], op.get("y", 0) % size[1]
+                b = op.get("button", 1)
+                events.append({"ev": "bytes", "t": t, "hex": appstack.mouse_hex(b, x, y) + ("" if b in (4, 5) else appstack.mouse_hex(b, x, y, True))})
+            elif k == "resize":
+                size = list(op["size"])
+                events.append({"ev": "resize", "t": t, "cols": size[0], "rows": size[1]})
+            elif k == "render":
+                pass  # a pause: the loop goes idle and redraws
+            else:
+                events.append({"ev": "app", "t": t, "op": op})
+
+        def factory():
+            widgets = [build_item(s) for s in cfg["items"]]
+            self.walker = build_walker(cfg["walker"], widgets, cfg)
+            self.lb = urwid.ListBox(self.walker)
+            return self.lb
+
+        def on_stable(stack):
+            if res.violations:
+                return
+            sz = stack.size()
+            n = stack.stable_points
+            try:
+                frame = self.check_render(f"stable-point {n}", sz, True)
+            except _ItemBroken as e:
+                res.probe("item_unrenderable_at_width")
+                self.log.add("item-broken", str(e)[:120])
+                return
+            if frame is None or res.violations:
+                return
+            shown = stack.screen_text()
+            if shown != frame["gtext"]:
+                bad = next((y for y, (a, b) in enumerate(zip(shown, frame["gtext"])) if a != b), 0)
+                self.violate("C07.2", "terminal-differs-from-listbox-canvas-when-loop-waits", f"stable point {n} size {sz}: row {bad}: terminal {shown[bad]!r} canvas {frame['gtext'][bad]!r}")
+                return
+            res.probe("stack_frame_checked_on_terminal")
+
+        stack = appstack.AppStack({"size": cfg["size"], "loop": st.get("loop", "select"), "tiebreak": st.get("tiebreak", ())}, res, factory, self.app_op, on_stable)
+        self.log.add("cfg", ["stack", st.get("loop", "select"), cfg["walker"], [spec_str(s) for s in cfg["items"]], list(cfg["size"])])
+        digest = stack.run(events)
+        how, exc = stack.outcome
+        size_now = tuple(stack.size())
+        if how == "raised":
+            if isinstance(exc, core.HarnessError):
+                raise exc
+            if core.raised_in_harness(exc) and not (isinstance(exc, _WalkerIndexError) and core.innermost_urwid_frame(exc)):
+                raise core.HarnessError(f"harness exception in full-stack run: {core.format_exc(exc)}") from exc
+            if isinstance(exc, _ItemBroken) or self.items_broken(size_now):
+                res.probe("item_unrenderable_at_width")
+            elif not res.violations:
+                self.violate("C07.1", self.exc_sig("full-stack-run", exc, size_now), f"MainLoop.run() raised at size {size_now} walker {cfg['walker']}: {core.format_exc(exc)}")
+        elif how in ("livelock", "quiescent") and not res.violations:
+            self.violate("C07.1", f"full-stack-run-{how}", str(exc))
+        else:
+            res.probe("stack_run_completed")
+        if stack.stable_points >= 2 and self.scrollable_seen:
+            res.nontrivial = True
+        self.log.add("stack-digest", digest)
+        if self.log.keep:
+            self.log.lines.extend(stack.log_lines)
+        return self.log.digest()
 
     # ---- the application actor ----------------------------------------------------------------
     def walker_op(self, op: dict) -> None:
@@ -617,7 +707,7 @@ class _Run:
         if self.renders >= 2 and self.moved_between_renders and self.scrollable_seen:
             res.nontrivial = True
         self.moved_between_renders = False
-        return {"ks": ks3, "owner": owner, "items": items, "T": T}
+        return {"ks": ks3, "owner": owner, "items": items, "T": T, "gtext": gtext}
 
     def do_click(self, i, op, size, frame) -> None:
         res, lb = self.res, self.lb
@@ -674,7 +764,7 @@ class ListBoxEngine(Engine):
         "the cursor clauses apply only when the ListBox is rendered with focus=True (otherwise no item shows a cursor)",
         "when duplicate rows make several slice offsets possible, any offset satisfying all clauses is accepted; a click on a row whose owner differs between them is not judged",
         "positions passed to set_focus / focus_position= / walker edits are reduced modulo the current length; requests on an empty list (documented IndexError) are skipped",
-        "the full-stack tenth of the design (bytes -> Screen -> MainLoop -> ListBox -> RefTerm) is C12's engine, not generated here",
+        "full-stack runs (12%): the same kind of history as timed events (key / SGR mouse bytes on the fake tty, SIGWINCH, application timers through MainLoop.set_alarm_at) on the real MainLoop + raw Screen + one of the six loops; the clauses are evaluated whenever the loop waits with the screen up to date, on the ListBox canvas MainLoop drew (a cache hit) and on the RefTerm grid; the click clause (5) is direct-drive only",
     ]
     components = {
         "real": ["ListBox, SimpleListWalker, SimpleFocusListWalker, MonitoredList/MonitoredFocusList, ListWalker signal plumbing, Text/Edit/Button/CheckBox/Divider/Pile/AttrMap, CanvasCombine/trim/pad, CanvasCache"],
@@ -694,6 +784,8 @@ class ListBoxEngine(Engine):
         "zero_row_item_in_list",
         "trailing_blank_rows",
         "window_strictly_inside_list",
+        "stack_frame_checked_on_terminal",
+        "stack_several_events_before_one_redraw",
     )
     reducible = ("ops",)
 
@@ -772,12 +864,17 @@ class ListBoxEngine(Engine):
             else:
                 ops.append({"op": "render", "focus": rng.random() < 0.9})
         ops.append({"op": "render", "focus": True})
+        if rng.random() < 0.12:
+            # full stack: the same history as timed external events; dt = 0 batches an event with its predecessor
+            cfg["stack"] = {"loop": rng.choice(["select", "select", "select", "asyncio", "zmq", "tornado", "twisted", "trio"]), "tiebreak": [rng.randrange(4) for _ in range(8)]}
+            for op in ops:
+                op["dt"] = 0.25 if op["op"] in ("render", "click") else rng.choice([0, 0, 0, 1 / 1024, 0.0625, 0.25])
         return {"config": cfg, "ops": ops}
 
     def execute(self, scen: dict) -> Result:
         res = Result()
         run = _Run(scen, res)
-        res.digest = run.run()
+        res.digest = run.run_stack() if scen["config"].get("stack") else run.run()
         if run.log.keep:
             res.info["log"] = run.log.lines
         return res
